@@ -65,6 +65,9 @@ class Exec(StmtMixin):
         for i, n in enumerate(loops):
             self.loop_ids[id(n)] = i + 1
         self.loop_ordinal = len(loops)
+        self.fn_names = ({n.id for n in ast.walk(fn) if isinstance(n, ast.Name) and isinstance(n.ctx, ast.Store)}
+                         | {a.arg for n in ast.walk(fn) if isinstance(n, ast.arguments) for a in n.args + n.kwonlyargs + n.posonlyargs}
+                         | {n.name for n in ast.walk(fn) if isinstance(n, ast.ExceptHandler) and n.name})
         missing = [k for k in c.loops if k > len(loops)]
         if missing:
             raise UnsupportedError(f"{c.key}: contract has invariants for loops {missing} but the function has {len(loops)} loops")
